@@ -571,3 +571,69 @@ pub fn arb_word_int() -> BoxedStrategy<I> {
         I { ty, v: v.clamp(lo, hi) }
     }).boxed()
 }
+
+/// any i128 incl. i128::MIN, weighted to large magnitudes and limb patterns
+pub fn arb_wide_i128() -> BoxedStrategy<i128> {
+    prop_oneof![
+        4 => arb_coeff(),
+        3 => any::<i128>(),
+        1 => Just(i128::MIN),
+        1 => Just(i128::MIN + 1),
+        // maximal leading limbs / all-ones patterns
+        2 => (0u32..=126, any::<bool>()).prop_map(|(k, neg)| {
+            let v = (u128::MAX >> (1 + k)) as i128;
+            if neg { -v } else { v }
+        }),
+        2 => (any::<u64>(), any::<bool>()).prop_map(|(lo, neg)| {
+            let v = ((0x7fff_ffff_ffff_ffffu128 << 64) | lo as u128) as i128;
+            if neg { -v } else { v }
+        }),
+        2 => (any::<u64>(), any::<bool>()).prop_map(|(hi, neg)| {
+            let v = ((((hi >> 1) as u128) << 64) | 0xffff_ffff_ffff_ffffu128) as i128;
+            if neg { -v } else { v }
+        }),
+    ]
+    .boxed()
+}
+
+/// divisors 1..=2^127-1 incl. the adversarial shapes for quotient-digit estimation
+pub fn arb_divisor() -> BoxedStrategy<i128> {
+    prop_oneof![
+        3 => arb_magnitude().prop_map(|m| m.max(1)),
+        2 => any::<u64>().prop_map(|m| (m as i128).max(1)),
+        2 => (1i128..=MAXC),
+        // normalised high limb 0x8000..0, low limb all ones (estimate too large)
+        4 => (65u32..=127, 0u32..=20, any::<u64>()).prop_map(|(b, cut, noise)| {
+            let hi = 1u128 << (b - 1);
+            let lo_bits = b - 64;
+            let lo = ((1u128 << lo_bits) - 1) & !(((1u128 << cut.min(lo_bits)) - 1) & noise as u128);
+            ((hi | lo) as i128).clamp(1, MAXC)
+        }),
+        // high limb small, low limb max
+        2 => (1u64..=16, any::<u64>()).prop_map(|(h, l)| {
+            ((((h as u128) << 64) | (l | 0xffff_ffff_0000_0000) as u128) as i128).clamp(1, MAXC)
+        }),
+        // just above / below 2^64
+        2 => (-4i128..=4).prop_map(|d| ((1i128 << 64) + d).max(1)),
+        1 => Just(1i128),
+        1 => Just(MAXC),
+    ]
+    .boxed()
+}
+
+
+/// Decimal operands for the wide (256-bit) paths: limb-pattern coefficients inside the
+/// domain, divisors with the adversarial shapes for quotient-digit estimation
+pub fn arb_wide_dec_pair() -> BoxedStrategy<(D, D)> {
+    (arb_wide_i128(), arb_divisor(), arb_scale(), arb_scale(), any::<bool>(), any::<bool>())
+        .prop_map(|(a, m, p, q, neg, swap)| {
+            let a = a.clamp(-MAXC, MAXC);
+            let m = if neg { -m } else { m };
+            if swap {
+                (D::new(m, p), D::new(a, q))
+            } else {
+                (D::new(a, p), D::new(m, q))
+            }
+        })
+        .boxed()
+}
